@@ -146,6 +146,10 @@ type Summ struct {
 	// EngineAliases enables the single-game alias normalisation (*GameState -> "GS",
 	// player.state / Player.State() -> "PS(x)").
 	EngineAliases bool
+	// NilFns: functions whose single error result is always nil (their "if err != nil" edges are dead).
+	NilFns map[*ssa.Function]bool
+	// InlineFilter, when set, must also accept a callee for it to be inlined.
+	InlineFilter func(fn *ssa.Function) bool
 
 	paths   []*PathSum
 	cut     string
@@ -969,7 +973,7 @@ func (s *Summ) call(fr *frame, x *ssa.Call, b *ssa.BasicBlock, i int, from *ssa.
 		return
 	}
 	// inline small loop-free module functions
-	if ev.Fn != nil && fr.depth < s.MaxDepth && !s.NoInline[ev.Callee] && !st.onstack[ev.Fn] && s.inlinable(ev.Fn) {
+	if ev.Fn != nil && fr.depth < s.MaxDepth && !s.NoInline[ev.Callee] && !st.onstack[ev.Fn] && s.inlinable(ev.Fn) && (s.InlineFilter == nil || s.InlineFilter(ev.Fn)) {
 		callee := ev.Fn
 		s.nframes++
 		nfr := &frame{fn: callee, depth: fr.depth + 1, id: s.nframes}
@@ -1031,6 +1035,9 @@ func (s *Summ) call(fr *frame, x *ssa.Call, b *ssa.BasicBlock, i int, from *ssa.
 	case 0:
 	case 1:
 		r := s.retypeCall(res, sig.Results().At(0).Type())
+		if ev.Fn != nil && s.NilFns[ev.Fn] && typeShort(sig.Results().At(0).Type()) == "error" {
+			r = vConst("nil")
+		}
 		st.env[x] = r
 		ev.Res = r
 	default:
